@@ -229,7 +229,7 @@ theorem syncCreateTasks_nok {j0 : JobObj} (s : Sys) (jo : JobObj) (tasks : List 
             refine ⟨(ht'.ok t htm).1, ?_⟩
             rcases hnew t htm with h | h
             · exact (hT0 t h).2
-            · obtain ⟨hn, p, hpt, hsrc⟩ := h
+            · obtain ⟨hn, p, _, hpt, hsrc⟩ := h
               have hpn := (podTask_ok hpt).2
               rcases hsrc with ⟨_, hfr⟩ | ⟨hpc, hpo⟩
               · refine mem_allowed_req ?_ (by rw [hpn]; exact hfr)
